@@ -151,7 +151,7 @@ func (c *ctx) ocClientResults(count int) {
 			p := c.payload(4 * n)
 			payloads = append(payloads, p)
 			if c.rng.Intn(3) == 0 {
-				stream = append(stream, c.smallFrame()...)
+				stream = append(stream, c.unrelatedFrame(xsens.MessageIdentifierReqOutputConfigurationAck)...)
 			}
 			stream = append(stream, xsens.NewMessage(xsens.MessageIdentifierReqOutputConfigurationAck, p)...)
 		}
